@@ -53,7 +53,10 @@ class Ledger:
         return e
 
     def stale(self):
-        return [k for k, e in self.entries.items() if self.used[k] < e.get("count", 1)]
+        seen = Counter(getattr(self, "seen_max", {}))
+        for k, v in self.used.items():
+            seen[k] = max(seen[k], v)
+        return [k for k, e in self.entries.items() if seen[k] < e.get("count", 1)]
 
 
 class Run:
@@ -84,9 +87,16 @@ class Run:
 
     # ---- bookkeeping ----
     def set_config(self, cfg):
+        """each feature configuration is a separate program: ledger and known-finding budgets apply per configuration"""
         self.config = cfg
         if cfg not in self.configs:
             self.configs.append(cfg)
+        for l in self.ledgers.values():
+            l.seen_max = getattr(l, "seen_max", Counter())
+            for k, v in l.used.items():
+                l.seen_max[k] = max(l.seen_max[k], v)
+            l.used = Counter()
+        self.known_used = Counter()
 
     def rule(self, rule, text):
         self.rule_text[rule] = text
@@ -143,6 +153,11 @@ class Run:
         return self.fail(rule, "ANCHOR-MISSING:" + what, "anchor not found / below floor: %s (the rule would pass vacuously; failing closed)" % what)
 
     def floor(self, rule, what, got, floor):
+        # floors are the counts confirmed by hand on the superset configuration; configurations that compile
+        # less code (no `outline`, no `prince`) legitimately have fewer instances
+        if self.config not in (None, "prince", "planted"):
+            self.notes.append("%s [%s] %s: %d (floor %d applies to the prince configuration)" % (rule, self.config, what, got, floor))
+            return
         if got < floor:
             self.fail(rule, "FLOOR:" + what, "rule matched %d instance(s) of %s, fewer than the %d confirmed by hand (fail closed)" % (got, what, floor))
         else:
